@@ -925,3 +925,14 @@ def ifexp_to_if(fn) -> int:
                 body[i:i + 1] = new
             i += 1
     return count
+
+
+def default_none_gets(fn) -> int:
+    """`d.get(k, None)` -> `d.get(k)`"""
+    n = 0
+    for x in ast.walk(fn):
+        if isinstance(x, ast.Call) and isinstance(x.func, ast.Attribute) and x.func.attr == "get" and len(x.args) == 2 and not x.keywords \
+                and isinstance(x.args[1], ast.Constant) and x.args[1].value is None:
+            x.args = x.args[:1]
+            n += 1
+    return n
